@@ -326,10 +326,10 @@ def gen_group_swap_rules(rng, letters, cellvals):
         "grouping gp %s%s %s,%s" % (a, b if b != a else "z", rng.choice(cs), rng.choice(cs)),
         "letsign 56", "capsletter 6",
     ]
-    cnt = lambda: rng.choice(["", "", "1-2", "1-3", "2", "0-1", "1-9"])
+    cnt = lambda: rng.choice(["", "", "1-2", "1-3", "2", "3", "1-9"])   # a lower bound of 0 is rejected by the compiler
     pool = [
         "noback correct [%%sw%s] %%sw" % cnt(), 'noback correct %%sw%s "%s"' % (cnt(), a), 'noback correct "%s"[%%sw%s]"%s" %%sw' % (a, cnt(), b),
-        "noback correct [%%sw] *", "noback correct _1[%%sw%s] %%sw" % cnt(), "noback correct [%sw]_1 %sw",
+        "noback correct [%sw] *", "noback correct _1[%%sw%s] %%sw" % cnt(), "noback correct [%sw]_1 %sw",
         "noback context [%%sd%s] %%sd" % cnt(), "noback context %%sd%s @%s" % (cnt(), rng.choice(cs)), 'noback context "%s"[%%sd] %%sd' % a,
         "noback pass2 [%%ss%s] %%ss" % cnt(), "noback pass2 %%ss%s @%s" % (cnt(), rng.choice(cs)), "noback pass2 @%s[%%ss] %%ss" % rng.choice(cs),
         "noback pass3 [%ss]_1 %ss", "noback pass2 _1[%%ss%s] %%ss" % cnt(),
@@ -340,9 +340,19 @@ def gen_group_swap_rules(rng, letters, cellvals):
         "nofor pass2 {gp *", "nofor correct }gp {gp", "nofor pass2 [{gp] ;gp",
         'noback correct $l%s"%s" "%s"' % (cnt(), a, b), "noback pass2 $a%s[@%s] @%s" % (cnt(), rng.choice(cs), rng.choice(cs)),
         "noback pass2 [$a%s] ?" % cnt(), "noback correct [$l1-9] *", "nofor pass2 $a%s[@%s]$a *" % (cnt(), rng.choice(cs)), "nofor pass2 [$a1-9]_1 ?",
-        "noback correct [!$l] ?", 'noback correct !"%s"["%s"] "%s"' % (a, b, a), "noback pass2 /@%s ?" % rng.choice(cs), 'noback correct "%s"/"%s" ?' % (a, b),
+        "noback correct [!$l] ?", 'noback correct !"%s"["%s"] "%s"' % (a, b, a), "noback pass2 @%s/@%s ?" % (rng.choice(cs), rng.choice(cs)), 'noback correct "%s"/"%s" ?' % (a, b),
         "noback pass2 `@%s ?" % rng.choice(cs), "noback pass2 @%s~ @%s" % (rng.choice(cs), rng.choice(cs)), "nofor pass2 `[@%s] *" % rng.choice(cs),
         "multind %s-%s letsign capsletter" % (rng.choice(cs), rng.choice(cs)), "multind 56-6 capsletter letsign",
+        # negated tests: a failed look-back / literal / attribute test turns true and the test goes on from where it stood
+        "nofor pass2 !_%d[$a]@%s @%s" % (rng.range(1, 3), rng.choice(cs), rng.choice(cs)), "nofor pass3 !_%d[@%s] @%s" % (rng.range(1, 2), rng.choice(cs), rng.choice(cs)),
+        "nofor context !_%d[@%s] ?" % (rng.range(1, 3), rng.choice(cs)), 'nofor correct !_%d["%s"] "%s"' % (rng.range(1, 2), a, b),
+        "noback pass2 !_%d[@%s] @%s" % (rng.range(1, 3), rng.choice(cs), rng.choice(cs)), 'noback correct !_%d[$l]"%s" *' % (rng.range(1, 2), a),
+        "noback context !_%d[$l] ?" % rng.range(1, 3), "nofor pass2 !@%s[@%s] ?" % (rng.choice(cs), rng.choice(cs)), "noback pass2 [@%s]!@%s ?" % (rng.choice(cs), rng.choice(cs)),
+        "nofor pass2 [@%s]!$a @%s" % (rng.choice(cs), rng.choice(cs)), "nofor pass4 !_1!@%s[$a] ?" % rng.choice(cs),
+        # match / backmatch: patterns before and behind the characters (their compiled form is an object of its own in the image)
+        "match %%a %s%s %%a+ %s" % (a, b, rng.choice(cs)), "backmatch - %s%s - %s" % (b, a, rng.choice(cs)),
+        "match %%[^_~]|%%<[%s%s] %s%s %%>[%s]|%%[^_~] %s" % (a, b, a, a, b, rng.choice(cs)), "backmatch [%s%s]+ %s%s (%s|%s)*. %s-%s" % (a, b, b, b, a, b, rng.choice(cs), rng.choice(cs)),
+        "noback match %%l* %s%s %%l? %s" % (b, a, rng.choice(cs)), "nofor backmatch %%l* %s%s !$ %s" % (a, b, rng.choice(cs)), "match ^ %s%s $ %s" % (a, b, rng.choice(cs)),
         # long literals: a test that runs far behind the end of the pass input
         "nofor pass2 @%s ?" % "-".join(pick(cs, 9)), "nofor pass3 @%s@%s *" % (rng.choice(cs), "-".join(pick(cs, 12))),
         'nofor correct "%s" ?' % "".join(pick(L, 10)), "noback pass2 @%s ?" % "-".join(pick(cs, 9)), 'noback correct "%s" "%s"' % ("".join(pick(L, 10)), a),
@@ -401,6 +411,12 @@ def gen_emphasis_table(rng):
         lines.append("letsign 56")
     if rng.chance(0.4):
         lines.append("nocontractsign 6-56")
+    if rng.chance(0.5):
+        # computer braille indicators (used around compbrl / computer_braille text, and recognised again on the way back)
+        lines.append("begcomp %s" % seq())
+        lines.append("endcomp %s" % seq())
+        if rng.chance(0.6):
+            lines.append("compbrl .")
     for _ in range(rng.range(1, 5)):
         w = "".join(rng.choice(low) for _ in range(rng.range(2, 3)))
         lines.append("%s %s %s" % (rng.choice(["always", "always", "word", "begword", "endword", "contraction", "largesign", "joinword", "lowword"]), w, d()))
